@@ -340,6 +340,8 @@ def run(ctx, tier):
     r_cnt = RuleResult('C12.count', 'a length test dominates the accept path and maps to DimensionMismatch')
     r_prop = RuleResult('C12.propagate', 'component constructor errors are propagated, never unwrapped')
     r_can = RuleResult('C12.canon', 'SE2State::new canonicalises its angle through SO2State::new')
+    r_cen = RuleResult('C12.centre', 'the centre a rotation-cone constructor stores is a unit quaternion by construction (normalised, or a unit literal)')
+    n_cen = [0]
 
     spaces = space_adts(ctx)
     ctors = []
@@ -410,6 +412,8 @@ def run(ctx, tier):
                             elif re.match(r'^\(.*State, f64\)$', fty):
                                 rad = fn._field(fterms, '1')
                                 _check_radius(b, fn, facts, rad, fname, r_st, r_nan, oi)
+                                n_cen[0] += 1
+                                _check_centre(ctx, b, fn, fn._field(fterms, '0'), fname, r_cen, oi)
 
         # ---- C12.count: parameters of type Option<Vec<..>> / Vec<..> need a length gate
         for pi in range(1, b.arg_count + 1):
@@ -496,7 +500,9 @@ def run(ctx, tier):
                                                   'the stored angle is not confined to [-pi, pi] / may be NaN: %s' % {k[1]: str(v) for k, v in res.items()}, loc=b.loc(0)))
     if nr < 1:
         r_rng.violations.append(Violation('C12', 'C12.range', 'oxmpl', 'floor', 'SO2State::new not found'))
-    return [r_st, r_nan, r_cnt, r_prop, r_can, r_rng, _sample_width(ctx), _unit_normalise(ctx), _congruent(ctx)]
+    if n_cen[0] < 2:
+        r_cen.violations.append(Violation('C12', 'C12.centre', 'oxmpl', 'floor', 'only %d stored cone centres found (floor 2: the given centre and the default)' % n_cen[0]))
+    return [r_st, r_nan, r_cnt, r_prop, r_can, r_cen, r_rng, _sample_width(ctx), _unit_normalise(ctx), _congruent(ctx)]
 
 
 def pred_facts(fn, target_block, pred, want_true):
@@ -914,6 +920,56 @@ def _check_radius(b, fn, facts, rad, fname, r_st, r_nan, oi):
                 'C12', 'C12.nan', b.path, fname + '.radius',
                 'stored angular radius may be %s relative to 0 (negative or NaN not excluded)' % sorted(rel),
                 loc=b.loc(0), ordinal=oi))
+
+
+def _check_centre(ctx, b, fn, cen, fname, r_cen, oi):
+    """the centre stored with an angular radius is a rotation: the Ok payload of the state's own normalise() (a zero-magnitude
+    quaternion is then an error, not a centre), a literal whose four components have unit norm, or a constructor without
+    arguments that returns one (identity()).  Distances to the centre are computed from the quaternion dot product: with a
+    short or zero centre every rotation is outside the cone, the bounds check rejects the centre itself and the rejection
+    sampler never returns."""
+    def unit_literal(node):
+        if node[0] != 'agg' or len(node[3]) != 4:
+            return False
+        vals = [const_float(t) for (_f, t) in node[3]]
+        return None not in vals and abs(sum(v * v for v in vals) - 1.0) < 1e-12
+
+    def normalised(ts):
+        return bool(ts) and all(m[0] == 'call' and m[1].rsplit('::', 1)[-1] in ('normalise', 'normalize') for m in ts)
+
+    def ok_node(n, depth=0):
+        k = n[0]
+        if k == 'clone':
+            return bool(n[1]) and all(ok_node(m, depth) for m in n[1])
+        if k == 'unwrap':
+            return normalised(n[1])
+        if k == 'agg':
+            return unit_literal(n)
+        if k == 'call' and n[1].startswith(('std::result::Result::<T, E>::', 'std::option::Option::<T>::')) and n[2]:
+            return n[1].rsplit('::', 1)[1] in ('unwrap', 'expect') and normalised(n[2][0])
+        if k == 'call' and depth < 3:
+            cb = ctx.core.body(n[1])
+            if cb is not None and cb.kind in ('Fn', 'AssocFn') and not cb.arg_count:
+                f2 = ctx.fn(cb)
+                rt = set()
+                for rb in f2.return_blocks():
+                    rt |= f2.local_terms(0, (rb, f2.nstmts(rb)))
+                return bool(rt) and all(ok_node(m, depth + 1) for m in rt)
+        return False
+    if not cen:
+        r_cen.inst('%s: stored centre %s.0 not found' % (b.path, fname), ok=False, site=b.loc(0))
+        r_cen.violations.append(Violation('C12', 'C12.centre', b.path, fname + '.centre', 'cannot tell what is stored as the cone centre (unrecognised shape)',
+                                          loc=b.loc(0), ordinal=oi))
+        return
+    for n in cen:
+        ok = ok_node(n)
+        r_cen.inst('%s: stored centre %s.0 = %s is a unit quaternion by construction' % (b.path, fname, fmt_terms(T(n))[:70]), ok=ok, site=b.loc(0))
+        if not ok:
+            r_cen.violations.append(Violation(
+                'C12', 'C12.centre', b.path, fname + '.centre',
+                'the cone centre is stored as %s: not the normalised centre and not a unit literal. A zero or short quaternion is accepted, '
+                'every rotation is then farther from it than the radius (the distance is computed from the dot product): the bounds check '
+                'rejects the centre itself and sample_uniform never returns' % fmt_terms(T(n))[:70], loc=b.loc(0), ordinal=oi))
 
 
 def _check_count(ctx, b, fn, pi, r_cnt):
